@@ -525,6 +525,14 @@ def run(ctx):
             for tree in ("dyadic", "weighted"):
                 for fs in (0, 1):
                     weights_case(ctx, setup, tree, 12, fs, family="offset-peak-triangle")
+    # (3) four and five dimensions in which distribution descriptions REPEAT (always on the same interval): the library re-uses one distribution object per
+    #     description, so the object of dimension k must be looked up by description, not by position among the distinct ones (seed C15_5)
+    U1, T1, N1 = (["Uniform"], 0.0, 1.0), (["Triangle", 0.3], 0.0, 1.0), (["Normal", 0.2, 1.0], -2.8, 3.2)
+    for pattern in ([N1, N1, U1, U1], [U1, T1, T1, U1, N1], [T1, T1, T1, N1], [U1, N1, U1, N1, T1]):
+        setup = {"dist": [list(x[0]) for x in pattern], "a": [x[1] for x in pattern], "b": [x[2] for x in pattern], "boundary": True}
+        weights_case(ctx, setup, "dyadic", 9, 0, family="repeated-descriptions")
+        if not quick:
+            weights_case(ctx, setup, "weighted", 7, 1, family="repeated-descriptions")
     # weights / midpoints
     nw = 70 if quick else 2500
     for i in range(nw):
